@@ -270,6 +270,26 @@ func c02Tasks(tier string) []Task {
 			tasks = append(tasks, seqTasks("C02", []seqLevel{lv})...)
 		}
 	}
+	// block family under cross-configuration restarts: multi-block values, also staged in batches (pooled records
+	// with large buffers), records next to block boundaries
+	{
+		bw := blockCfg()
+		var br []Cfg
+		for _, ix := range []int8{1, 3} {
+			for _, io := range []byte{0, 1} {
+				c := bw
+				c.Index, c.IO = ix, io
+				br = append(br, c)
+			}
+		}
+		alpha := func(c Cfg) []Op {
+			return []Op{{K: "put", Key: "a", VC: "S"}, {K: "put", Key: "b", VC: "S"}, {K: "del", Key: "a"},
+				{K: "batch", Sub: []Op{{K: "put", Key: "a", VC: "S"}, {K: "put", Key: "b", VC: "M"}}, Dev: true},
+				{K: "put", Key: "b", VC: "B", Arg: 3, Dev: true}, {K: "xrestart", Dev: true}}
+		}
+		run := makeRunC02(bw, br[1], br)
+		tasks = append(tasks, seqTasks("C02", []seqLevel{{Name: "block-family-d4", Cfgs: []Cfg{bw}, Keys: keysAB, Alpha: alpha, Depth: 4, Dev: 2, Run: run}})...)
+	}
 	// reopening with another DataFileSize and merging afterwards (the merge output then needs more / fewer files
 	// than its input): deeper than the pair levels, restricted to the pairs that differ in DataFileSize
 	{
